@@ -89,6 +89,8 @@ type Sched struct {
 	Diverge string  // set when the prefix could not be replayed
 
 	Panics []string // unrecovered panics in managed goroutines ("would have crashed the process")
+	// Recovered: values returned non-nil by the program's own recover() calls (rewritten to NoteRecover)
+	Recovered []string
 	Events []string // pool tracker and other runtime events
 	Trace  []string // optional op trace (Debug)
 	Debug  bool
@@ -410,6 +412,20 @@ func PointOp(op Op) {
 // the end of an execution (its remaining operations are no-ops).
 //
 //go:norace
+// NoteRecover is what the overlay turns recover() into: vsched.NoteRecover(recover()).
+// A panic the program contains is still a panic; properties that forbid "even a
+// recovered panic" read S.Recovered instead of guessing from log lines.
+//
+//go:norace
+func NoteRecover(v any) any {
+	if v != nil && S != nil {
+		if g := cur(); g == nil || !g.dying {
+			S.Recovered = append(S.Recovered, fmt.Sprint(v)+" recovered at "+callers())
+		}
+	}
+	return v
+}
+
 func Dying() bool {
 	g := cur()
 	return g != nil && g.dying
